@@ -109,6 +109,14 @@ CLAIMS["C16"] = (
     "Trusted: hooks H3-H5, reference encoder. Outside: symbolic numeric/string payloads, > 2 pages.",
     "DESIGN.md §4 C16")
 
+CLAIMS["C04"] = (
+    "Symbolic execution of the real GameSpy code on reference replies with the solver deciding every obligation for all "
+    "ip/port values: GameSpy 2 whole query (key/value block, player table, unused entries exact), GameSpy 3 raw-variables "
+    "query and team-section parser, GameSpy 1 per-player grouping. Partial: the whole-query GameSpy 1 and GameSpy 3 "
+    "player-section harnesses exist but only fit the thorough tier's time cap (or exceed it).",
+    "Trusted: hooks H3-H5 (map model), listed stubs. Concrete reply texts. See bounds.outside for what is not reached.",
+    "DESIGN.md §4 C04")
+
 ALL = ["C%02d" % i for i in range(1, 21)]
 
 DEFAULT_NA = "check not built yet in this revision (work in progress; see DESIGN.md for the plan)"
